@@ -20,6 +20,7 @@ import YtkProofs.HeapBuilderRefine
 import YtkProofs.HeapBuild
 import YtkProofs.HeapBuilderRun
 import YtkProofs.HeapBuilderHist
+import YtkProofs.PlainSpec
 
 namespace Ytk.C03
 
@@ -903,5 +904,193 @@ theorem nonvacuous_below_and_list_step :
     bstep [("a", .cont [("l", .list [Node.null])])] (.listSet "a.l" 2 (.leaf ⟨"int", "7"⟩)) =
       .ok [("a", .cont [("l", .list [Node.null, Node.null, .leaf ⟨"int", "7"⟩])])] := by
   decide +kernel
+
+end Ytk.C03
+
+namespace Ytk.C03
+
+/-! ## The plain tree (clause C03.1): an independent structured specification and the refinement to it
+
+  Everything above characterises the builder by laws ABOUT the string-path algorithm.  This section
+  states what the property literally says: after every step of every history, `AsMap(doc)` is the result
+  of "the same edits on a plain map/slice tree".
+
+  * The plain tree and its edits are YtkModel/PlainSpec.lean (`Ytk.Plain`): `Val`s, paths as lists of
+    STEPS (`PSeg.key k` / `PSeg.idx i`), `setAt` / `updAt` / `getAt` by recursion over the steps — no
+    path string, no splitting, no index-group parsing.
+  * `toStructured` (YtkProofs/PlainSpec.lean) reads a builder call as a structured edit: a member name is
+    one component (`segOfComp`: key, then index groups), a path its dotted components; values cross by
+    AsMap.  On the property's domain — paths RENDERED by `ToPath` / `ToListPath` from structured
+    components over path-safe keys — this reading is the identity (`toStructured_render`), so
+    `run_eq_plain_structured` has no parser on either side of the equation.
+  * What is NOT a hypothesis: DESIGN 10.4's "no index step on an existing non-list, no key step into an
+    existing list".  The specification replaces a node of the wrong kind by a fresh map / list, and so
+    does the code — the refinement holds there too (`plain_replaces_wrong_kind_instance`).  The
+    hypotheses that ARE needed each have a kernel-checked counterexample below. -/
+
+section plain
+open Ytk.Plain
+
+/-- THE HEART, no hypothesis at all: for EVERY document, path string and value, AsMap after
+    `AddValueAt(path, v)` is the structured write `setAt` along the steps of the path — missing parents
+    created (a map for a key step, a list padded with nulls for an index step), a node of the other kind
+    replaced. -/
+theorem addValueAt_eq_specSet (d : AMap Node) (path : String) (v : Node) :
+    encDoc (addValueAt d path v) = specSet (encDoc d) (pathStepsOf path) (encodeNode v) :=
+  encode_addValueAt d path v
+
+/-- … and for a direct member (`AddValue`, `AddContainer`, `AddList`; names with index groups included) -/
+theorem add_eq_specSet (d : AMap Node) (name : String) (v : Node) :
+    encDoc (add d name v) = specSet (encDoc d) (segOfComp name) (encodeNode v) := encode_add d name v
+
+/-- `RemoveAt` / `Remove` on a valid document: the last KEY is deleted from the map at the parent path;
+    a path ending in an index group removes nothing (every path string). -/
+theorem removeAt_eq_specRemove (d : AMap Node) (hv : (Node.cont d).Valid) :
+    (∀ path, encDoc (removeAt d path) = specRemove (encDoc d) (pathStepsOf path)) ∧
+    (∀ name, encDoc (remove d name) = specRemove (encDoc d) (segOfComp name)) :=
+  ⟨encode_removeAt d hv, encode_remove d hv⟩
+
+/-- `Lookup` is `getAt` along the steps (every document, every non-empty path string) -/
+theorem lookup_eq_specGet (d : AMap Node) (path : String) (hp : path ≠ "") :
+    (lookup d path).map encodeNode = getAt (encDoc d) (pathStepsOf path) := encode_lookup d path hp
+
+/-- ONE step of a history — any of the eleven calls, the `MustSet` panic included — is the structured
+    edit it denotes. -/
+theorem step_eq_plain (d : AMap Node) (op : BOp) (hv : (Node.cont d).Valid) (hp : op.PathOk) :
+    (bstep d op).map encDoc = specStep (encDoc d) (toStructured op) := bstep_eq_specStep d op hv hp
+
+/-- **run_eq_plain**: for every valid start document and every history whose values are valid and whose
+    ListBuilder calls are addressed by a non-empty path — ALL path strings otherwise, no `Fits`, no
+    alphabet restriction —, after EVERY prefix (`take n`, every `n`) the AsMap of the builder's document
+    is the plain tree after the same prefix of structured edits; a `MustSet` panic is a panic of both. -/
+theorem run_eq_plain (d : AMap Node) (h : List BOp) (hd : (Node.cont d).Valid)
+    (hh : ∀ op ∈ h, op.ValuesValid ∧ op.PathOk) (n : Nat) :
+    (brun d (h.take n)).map encDoc = specRun (encDoc d) ((h.map toStructured).take n) := by
+  rw [← List.map_take]
+  exact brun_eq_specRun _ d hd (fun op ho => hh op (List.mem_of_mem_take ho))
+
+/-- On rendered paths the reading `toStructured` is the identity: a structured call (`POp`: components =
+    key + index groups) over path-safe keys, rendered to the strings the Go program passes
+    (`POp.render`, by `ToPath` / `ToListPath`), denotes exactly its own steps (`POp.spec`). -/
+theorem toStructured_render (op : POp) (h : op.Ok) : toStructured op.render = op.spec :=
+  POp.toStructured_render h
+
+/-- **run_eq_plain, structured form** (no parser in the statement): for every valid start document and
+    every STRUCTURED history in the domain `POp.Ok` (non-empty paths, path-safe keys, valid values —
+    decidable: `inDomB`), rendering the paths, running the builder's string-path algorithm and taking
+    AsMap equals running the structured edits on the plain tree — after every prefix. -/
+theorem run_eq_plain_structured (d : AMap Node) (h : List POp) (hd : (Node.cont d).Valid)
+    (hh : ∀ op ∈ h, op.Ok) (n : Nat) :
+    (brun d ((h.take n).map POp.render)).map encDoc = specRun (encDoc d) ((h.take n).map POp.spec) :=
+  brun_render_eq_specRun d (h.take n) hd (fun op ho => hh op (List.mem_of_mem_take ho))
+
+/-- … from the decidable domain check -/
+theorem run_eq_plain_structured_dec (d : AMap Node) (h : List POp) (hd : inDomB d h = true) (n : Nat) :
+    (brun d ((h.take n).map POp.render)).map encDoc = specRun (encDoc d) ((h.take n).map POp.spec) :=
+  run_eq_plain_structured d h (inDomB_sound hd).1 (inDomB_sound hd).2 n
+
+/-- END TO END, pointer level → plain tree: compose `heap_run_refines` with `run_eq_plain`.  For every
+    history of builder calls on the root, on live and on detached handles, started in a well-formed
+    tree-shaped heap whose root abstracts to the valid document `d`, the AsMap of the root afterwards is
+    the plain tree after the corresponding structured edits. -/
+theorem heap_run_eq_plain (root : Ytk.Heap.Addr) (h h' : Ytk.Heap.Heap) (ops : List Ytk.Heap.HOp) (bops : List BOp)
+    (d : AMap Node) (hrun : Ytk.Heap.HandleRun root h ops bops h') (hi : Ytk.Heap.Inv h)
+    (hs : Ytk.Heap.SibSep h root) (hrl : root < h.size) (hd : Ytk.Heap.abs h root = some (.cont d))
+    (hv : (Node.cont d).Valid) (hh : ∀ op ∈ bops, op.ValuesValid ∧ op.PathOk) :
+    ∃ d', Ytk.Heap.abs h' root = some (.cont d') ∧
+      specRun (encDoc d) (bops.map toStructured) = .ok (encDoc d') := by
+  obtain ⟨_, _, _, _, d', hb, ha⟩ := heap_run_refines root h h' ops bops d hrun hi hs hrl hd
+  refine ⟨d', ha, ?_⟩
+  rw [← brun_eq_specRun bops d hv hh, hb]
+  rfl
+
+/-! ### each hypothesis is needed (kernel-checked) -/
+
+/-- the START DOCUMENT must be valid: with a literal key ending in an index group (D26's shape, no
+    document built through the API has one) `Remove("l[0]")` deletes that key — the plain tree has no
+    list `l` to look into. -/
+theorem run_eq_plain_needs_valid_doc :
+    (brun [("l[0]", Node.null)] [.remove "l[0]"]).map encDoc ≠
+      specRun (encDoc [("l[0]", Node.null)]) ([BOp.remove "l[0]"].map toStructured) ∧
+    -- … and its keys sorted (= a Go map, unique keys): `[b, a]` is no map, "replace member a" is undefined
+    (brun [("b", Node.null), ("a", Node.null)] [.listClear "a.x"]).map encDoc ≠
+      specRun (encDoc [("b", Node.null), ("a", Node.null)]) ([BOp.listClear "a.x"].map toStructured) := by
+  decide +kernel
+
+/-- the VALUES must be valid: the same effect one level down, through a value that carries such a key -/
+theorem run_eq_plain_needs_valid_values :
+    (brun [] [.addValue "a" (.cont [("l[0]", Node.null)]), .removeAt "a.l[0]"]).map encDoc ≠
+      specRun (encDoc []) ([BOp.addValue "a" (.cont [("l[0]", Node.null)]), .removeAt "a.l[0]"].map toStructured) := by
+  decide +kernel
+
+/-- a ListBuilder call needs a NON-EMPTY path: `Lookup("")` is nil by definition (no list to edit),
+    while the member with the empty key exists in the plain tree -/
+theorem run_eq_plain_needs_list_path :
+    (brun [("", .list [])] [.listAppend "" Node.null]).map encDoc ≠
+      specRun (encDoc [("", .list [])]) ([BOp.listAppend "" Node.null].map toStructured) := by
+  decide +kernel
+
+/-- structured form: keys must be PATH-SAFE — a dot splits, a bracket group is read as an index, an
+    empty key vanishes from the rendered path — and the path NON-EMPTY -/
+theorem run_eq_plain_structured_needs_safe_keys :
+    (brun [] ([POp.addValueAt [("a.b", [])] Node.null].map POp.render)).map encDoc ≠
+      specRun (encDoc []) ([POp.addValueAt [("a.b", [])] Node.null].map POp.spec) ∧
+    (brun [] ([POp.addValue ("x[0]", []) Node.null].map POp.render)).map encDoc ≠
+      specRun (encDoc []) ([POp.addValue ("x[0]", []) Node.null].map POp.spec) ∧
+    (brun [] ([POp.addValueAt [("", []), ("b", [])] Node.null].map POp.render)).map encDoc ≠
+      specRun (encDoc []) ([POp.addValueAt [("", []), ("b", [])] Node.null].map POp.spec) ∧
+    (brun [] ([POp.addValueAt [] Node.null].map POp.render)).map encDoc ≠
+      specRun (encDoc []) ([POp.addValueAt [] Node.null].map POp.spec) := by
+  decide +kernel
+
+/-- NOT excluded — DESIGN 10.4's two classes: a key step into an existing list (`a.b` with `a` a list)
+    and an index step onto an existing container (`c[1]` with `c` a container) do not fit the document
+    (`fitsB = false`), and still both sides agree: the node of the wrong kind is replaced by a fresh map /
+    a fresh padded list, in the code and in the specification. -/
+theorem plain_replaces_wrong_kind_instance :
+    let d : AMap Node := [("a", .list [.leaf ⟨"int", "1"⟩]), ("c", .cont [("x", .leaf ⟨"int", "1"⟩)])]
+    let h : List BOp := [.addValueAt "a.b" (.leaf ⟨"int", "2"⟩), .addValueAt "c[1]" (.leaf ⟨"int", "3"⟩)]
+    fitsB d ["a", "b"] = false ∧ fitsB d ["c[1]"] = false ∧
+    (brun d h).map encDoc = .ok (.obj [("a", .obj [("b", .sc ⟨"int", "2"⟩)]),
+      ("c", .arr [Val.null, .sc ⟨"int", "3"⟩])]) ∧
+    specRun (encDoc d) (h.map toStructured) = .ok (.obj [("a", .obj [("b", .sc ⟨"int", "2"⟩)]),
+      ("c", .arr [Val.null, .sc ⟨"int", "3"⟩])]) := by
+  decide +kernel
+
+/-! ### non-vacuity: an eight-step structured history with nested lists inside the domain -/
+
+def plainDoc : AMap Node := [("srv", .cont [("port", .leaf ⟨"int", "80"⟩)])]
+
+/-- `srv.hosts[1][0] = a` (creates `hosts`, pads `hosts[0]`, nests a list), AddList, Append,
+    `Set(2)` on the inner list `srv.hosts[1]` (pads), AddContainer, RemoveAt, Walk(CompactFn) (drops the
+    empty `tmp`), MustSet in range -/
+def plainHist : List POp := [
+  .addValueAt [("srv", []), ("hosts", [1, 0])] (.leaf ⟨"string", "a"⟩),
+  .addList ("tags", []),
+  .listAppend [("tags", [])] (.leaf ⟨"string", "x"⟩),
+  .listSet [("srv", []), ("hosts", [1])] 2 (.leaf ⟨"string", "c"⟩),
+  .addContainer ("tmp", []),
+  .removeAt [("srv", []), ("port", [])],
+  .compact,
+  .listMustSet [("tags", [])] 0 (.leaf ⟨"string", "y"⟩)]
+
+def plainResult : Val :=
+  .obj [("srv", .obj [("hosts", .arr [Val.null, .arr [.sc ⟨"string", "a"⟩, Val.null, .sc ⟨"string", "c"⟩]])]),
+        ("tags", .arr [.sc ⟨"string", "y"⟩])]
+
+/-- the history is in the (decidable) domain, the rendered calls are the strings a Go caller writes,
+    both sides of `run_eq_plain_structured` evaluate to the same non-trivial tree, and an out-of-range
+    `MustSet` appended to it is a panic of both -/
+theorem nonvacuous_run_eq_plain :
+    inDomB plainDoc plainHist = true ∧
+    renderFrom "" [("srv", []), ("hosts", [1, 0])] = "srv.hosts[1][0]" ∧
+    renderFrom "" [("srv", []), ("hosts", [1])] = "srv.hosts[1]" ∧ renderFrom "" [("tags", [])] = "tags" ∧
+    (brun plainDoc (plainHist.map POp.render)).map encDoc = .ok plainResult ∧
+    specRun (encDoc plainDoc) (plainHist.map POp.spec) = .ok plainResult ∧
+    specRun (encDoc plainDoc) ((plainHist ++ [POp.listMustSet [("tags", [])] 5 Node.null]).map POp.spec) = .panic ∧
+    (brun plainDoc ((plainHist ++ [POp.listMustSet [("tags", [])] 5 Node.null]).map POp.render)).map encDoc = .panic := by
+  decide +kernel
+
+end plain
 
 end Ytk.C03
